@@ -9,6 +9,7 @@ import PatVerif.Drive.Iss
 import PatVerif.Drive.Sig
 import PatVerif.Drive.C18
 import PatVerif.Drive.C16
+import PatVerif.Drive.C17
 /-! Line-protocol driver: one operation per input line, one outcome line per operation,
 computed by the model definitions the theorems are about. -/
 open PatVerif
@@ -26,6 +27,7 @@ def dispatch (line : String) : String :=
       else if op.startsWith "c03." then Drive.C03.handle op args
       else if op.startsWith "c18." then Drive.C18.handle op args
       else if op.startsWith "c16." then Drive.C16.handle op args
+      else if op.startsWith "c17." then Drive.C17.handle op args
       else if op.startsWith "c12." || op.startsWith "c13." || op.startsWith "c14." || op.startsWith "c15." then Drive.Sig.handle op args
       else if op.startsWith "c01." || op.startsWith "c02." || op.startsWith "c10." || op.startsWith "c11." then Drive.Iss.handle op args
       else if op.startsWith "c06." || op.startsWith "c07." || op.startsWith "c08." then Drive.T3.handle op args
